@@ -206,15 +206,26 @@ def _site() -> str:
 
 
 def _tb_site(tb: Any) -> str:
-    site = "<outside-liquid2>"
+    """Innermost liquid2 function of a traceback (outside undefined.py); for the shared
+    helper modules the nearest non-helper caller is appended."""
+    frames: list[tuple[str, str]] = []
     while tb is not None:
         fn = tb.tb_frame.f_code.co_filename
         i = fn.rfind("/liquid2/")
         if i >= 0:
             mod = fn[i + 9:].removesuffix(".py").replace("/", ".").removeprefix("builtin.")
             if mod != "undefined":
-                site = f"{mod}.{tb.tb_frame.f_code.co_qualname}".replace(".<locals>", "")
+                frames.append((mod, tb.tb_frame.f_code.co_qualname.replace(".<locals>", "")))
         tb = tb.tb_next
+    if not frames:
+        return "<outside-liquid2>"
+    mod, qn = frames[-1]
+    site = f"{mod}.{qn}"
+    if mod.split(".")[0] in HELPER_MODS:
+        for m2, q2 in reversed(frames[:-1]):
+            if m2.split(".")[0] not in HELPER_MODS:
+                site += f"<{m2}.{q2}"
+                break
     return site
 
 
@@ -519,6 +530,10 @@ class Runner:
         self._envs: dict[tuple[int, str], Any] = {}
         self._tpl: dict[tuple[int, str, str], Any] = {}
         self.minimised = 0
+        # roots that are missing from the data of the case being judged (set by case /
+        # replay): the default policy is re-rendered with them set to nil and to ''
+        self.nilroots: tuple[str, ...] = ()
+        self._last: Any = None
         self.keycache: dict[tuple[str, str], list[str]] = {}
 
     # -- environments / templates -------------------------------------------------
@@ -568,11 +583,13 @@ class Runner:
             r = Res("undef", None, "UndefinedError", str(e.args[0]) if e.args else "", log)
             r.where = _tb_site(e.__traceback__)
         except self.LiquidError as e:
-            r = Res("error", None, type(e).__name__, None, log)
+            r = Res("error", None, type(e).__name__, str(e.args[0])[:80] if e.args else "", log)
+            r.where = _tb_site(e.__traceback__)
         except RecursionError:
-            r = Res("crash", None, "RecursionError", None, log)
+            r = Res("recursion", None, "RecursionError", None, log)
         except Exception as e:  # noqa: BLE001
-            r = Res("crash", None, type(e).__name__, None, log)
+            r = Res("crash", None, type(e).__name__, str(e)[:80], log)
+            r.where = _tb_site(e.__traceback__)
         finally:
             _CUR[0] = None
         return r
@@ -582,6 +599,7 @@ class Runner:
         t = self.parse(source, templates, flavour)
         if t is None:
             return None
+        self._last = (t, data, mode)
         # data is deep-copied per render so a mutation in one run cannot leak
         return {p: self.render(t[p], copy.deepcopy(data), mode, detail) for p in POLICIES}
 
@@ -602,6 +620,10 @@ class Runner:
                     return kind + ("-async" if mode == "async" else "")
             return text
         pol = clause.split("-")[0]
+        if clause.endswith("-non-liquid-error"):
+            return f"{rs[pol].err}@{rs[pol].where}"
+        if clause == "default-missing-raises-where-nil-renders":
+            return f"{rs['default'].err}@{rs['default'].where}"
         if clause.endswith("-touch-did-not-raise"):
             sl = rs[pol].log.silent
             return f"{sl[1]}/{sl[0]}" if sl else text
@@ -624,6 +646,8 @@ class Runner:
             return f"{dl[-1][1]}/{dl[-1][0]}" if dl else text
         for p in ((pol,) if pol in ("strict", "falsy") else ("strict", "falsy")):
             if rs[p].kind == "undef":
+                if rs[p].msg in ("'empty' is undefined", "'blank' is undefined"):
+                    return "keyword-parsed-as-path:" + rs[p].msg.split("'")[1]
                 dl = rs[p].log.detail
                 return f"{dl[-1][1]}/{dl[-1][0]}" if dl else f"no-touch@{rs[p].where}"
         return text
@@ -637,6 +661,26 @@ class Runner:
         if d.kind == "undef":
             out.append(("default-raises", f"default policy raised UndefinedError: {d.msg}"))
         observed_complete = d.log.n_created == 0
+        for p in POLICIES:
+            if rs[p].kind == "crash":
+                out.append((f"{p}-non-liquid-error",
+                            f"{p} policy: {rs[p].err} ({rs[p].msg}) escaped from "
+                            f"{rs[p].where}; not a LiquidError"))
+        if d.kind == "error" and self.nilroots and self._last is not None:
+            # "a missing variable behaves as nil/empty": the same template must not fail
+            # under the default policy merely because the variable is absent when it
+            # renders both with the variable set to nil and set to the empty string
+            t, data, mode = self._last
+            alt = []
+            for val in (None, ""):
+                d2 = copy.deepcopy(data)
+                for name in self.nilroots:
+                    d2[name] = val
+                alt.append(self.render(t["default"], d2, mode))
+            if all(a.kind == "ok" for a in alt):
+                out.append(("default-missing-raises-where-nil-renders",
+                            f"default policy raised {d.err} with {list(self.nilroots)} missing "
+                            f"but renders {alt[0].out!r} with nil and {alt[1].out!r} with ''"))
         for p in ("strict", "falsy"):
             r = rs[p]
             if r.kind == "ok":
@@ -711,8 +755,10 @@ class Runner:
     # -- a case -----------------------------------------------------------------------
     def case(self, source: str, templates: dict[str, str], data: dict[str, Any], mode: str,
              flavour: str, complete: bool, deleted: int, stmts: list[str] | None = None,
-             record: bool = True, nouse: tuple[str, ...] = ()) -> list[tuple[str, str]]:
+             record: bool = True, nouse: tuple[str, ...] = (),
+             nil: tuple[str, ...] = ()) -> list[tuple[str, str]]:
         ctx = self.ctx
+        self.nilroots = tuple(nil)
         rs = self.triple(source, templates, data, mode, flavour)
         if rs is None:
             return []
@@ -747,6 +793,8 @@ class Runner:
                 ctx.seen("touch_kinds", name)
         if d.kind in ("error", "crash"):
             ctx.count("default_other_error")
+            if self.nilroots:
+                ctx.count("nil_substitution_checks")
         if mode == "async":
             ctx.count("async_triples")
         if deleted or raised:
@@ -758,7 +806,9 @@ class Runner:
             if f.kind == "ok" and f.log.n_touches:
                 ctx.count("nouse_falsy_ok_after_touch")
         if found:
+            Runner._nil_for_witness = self.nilroots
             self.report(found, source, templates, data, mode, flavour, complete, stmts, nouse)
+            Runner._nil_for_witness = ()
         return found
 
     # -- violations --------------------------------------------------------------------
@@ -813,6 +863,8 @@ class Runner:
              "env": flavour, "complete": complete, "clause": clause}
         if nouse:
             w["nouse"] = list(nouse)
+        if getattr(Runner, "_nil_for_witness", ()):
+            w["nil"] = list(Runner._nil_for_witness)
         if orig is not None and orig != source:
             w["minimised_from"] = orig
         return w
@@ -1183,6 +1235,10 @@ def floors(tier: str) -> dict[str, int]:
         "set:statement_kinds": 150,
         "sweep_programs": 12000,
         "local_binding_triples": 3500,
+        "reshaped_data_triples": 2500,
+        "set:data_shapes": 9,
+        "inner_variable_deletion_triples": 150,
+        "nil_substitution_checks": 500,
         "set:local_binder_x_use": 600,
         "short_circuit_async": 1000,
         "short_circuit_sync": 1000,
@@ -1243,7 +1299,8 @@ def _corpus(r: Runner, spec: dict[str, Any], ctx: Ctx) -> None:
             ctx.count("cases_with_exhaustive_deletion_subsets")
         for sub in subs:
             d2 = delete(data, sub)
-            r.case(src, tpls, d2, mode, "default", False, len(sub))
+            r.case(src, tpls, d2, mode, "default", False, len(sub),
+                   nil=tuple(p[0] for p in sub if len(p) == 1))
             ctx.count("deletion_variants")
             last = {"kind": "corpus", "of": c["name"], "source": src, "deleted": [list(p) for p in sub],
                     "data": d2}
@@ -1300,6 +1357,11 @@ def _gen(r: Runner, spec: dict[str, Any], ctx: Ctx) -> None:
             continue
         r.case(src, tpls, data, mode, "shopify", complete, 0, parts, nouse=nouse)
         ctx.count("gen_programs")
+        if complete:
+            shape = rng.choice(G.SHAPES)
+            r.case(src, tpls, G.reshape(data, *shape), mode, "shopify", True, 0, parts)
+            ctx.count("reshaped_data_triples")
+            ctx.seen("data_shapes", "+".join(shape))
         cands = candidates(data, first.log.lookups, _analysed(t["default"]), 9)
         # only positions under roots the program mentions
         mentioned = {p[0] for p in first.log.lookups} | {s[0] for s in _analysed(t["default"]) if s}
@@ -1309,7 +1371,8 @@ def _gen(r: Runner, spec: dict[str, Any], ctx: Ctx) -> None:
             ctx.count("cases_with_exhaustive_deletion_subsets")
         for sub in subs:
             d2 = delete(data, sub)
-            r.case(src, tpls, d2, mode, "shopify", False, len(sub), parts)
+            r.case(src, tpls, d2, mode, "shopify", False, len(sub), parts,
+                   nil=tuple(p[0] for p in sub if len(p) == 1))
             ctx.count("deletion_variants")
             last = {"kind": "gen", "source": src, "deleted": [list(p) for p in sub]}
     if last:
@@ -1326,19 +1389,30 @@ def _sweep(r: Runner, spec: dict[str, Any], ctx: Ctx) -> None:
             continue
         ctx.check_deadline()
         kind, src, nouse = e["kind"], e["src"], tuple(e["nouse"])
-        both = e["both"] or tier != "quick" or (pi // spec["n"]) % 4 == 3
+        both = e["both"] or (e["mode"] is None and
+                             (tier != "quick" or (pi // spec["n"]) % 4 == 3))
         data = G.base_data()
         data.update(copy.deepcopy(e["extra"]))
         if e["delete"]:
             data = delete(data, e["delete"])
+        if e["shape"]:
+            data = G.reshape(data, *e["shape"])
+        nil = tuple(d[0] for d in e["delete"] if len(d) == 1)
+        if not nil and re.search(r"(?<![\w.])nosuch(?![\w])", src):
+            nil = ("nosuch",)
         if r.parse(src, tpls, "shopify") is None:
             ctx.count("gen_unparsable")
             ctx.note(f"sweep produced unparsable source: {src!r}")
             continue
-        for mode in (("sync", "async") if both else ("sync",)):
+        for mode in (("sync", "async") if both else (e["mode"] or "sync",)):
             r.case(src, tpls, data, mode, "shopify", e["complete"], len(e["delete"]), [src],
-                   nouse=nouse)
+                   nouse=nouse, nil=() if nouse else nil)
             ctx.count("sweep_programs")
+            if e["shape"]:
+                ctx.count("reshaped_data_triples")
+                ctx.seen("data_shapes", "+".join(e["shape"]))
+            if kind.startswith("inner:"):
+                ctx.count("inner_variable_deletion_triples")
             if kind.startswith("nouse:sc-"):
                 ctx.count("short_circuit_" + mode)
             if kind.startswith("local:"):
@@ -1356,11 +1430,13 @@ def replay(wit: dict[str, Any], ctx: Ctx) -> None:
     r = Runner(ctx)
     src = wit["source"]
     tpls = wit.get("templates") or {}
-    data = wit.get("data") or {}
+    data = G.untag(wit.get("data") or {})
     mode = wit.get("mode", "sync")
     flavour = wit.get("env", "default")
     complete = bool(wit.get("complete"))
     nouse = tuple(wit.get("nouse") or ())
+    r.nilroots = tuple(wit.get("nil") or ())
+    Runner._nil_for_witness = r.nilroots
     rs = r.triple(src, tpls, data, mode, flavour, detail=True)
     print(f"replay C16: source={src!r} mode={mode} env={flavour} complete={complete}")
     print(f"  data={json.dumps(data, default=str)[:600]}")
